@@ -8,6 +8,7 @@ use crate::stats::Stats;
 use crate::trace::{hex, Violation};
 use crate::workload::{decode_exact, gen_frame, msg_numbers, panic_text, val_gen_for, GenSpec};
 use rtcm_rs::msg::message::MsgNotSupportedT;
+use rtcm_rs::msg::{BdsSigId, GalSigId, GloSigId, GpsSigId, NavicSigId, QzssSigId, SbasSigId};
 use rtcm_rs::prelude::*;
 use rtcm_rs::util::ArrayString;
 use rtcm_rs::verif_hooks;
@@ -26,6 +27,9 @@ pub enum Op {
     NoWire { which: String, n: u16 },
     /// build_message(decode(spec)) with the k-th Assembler::put failing (hook)
     Injected { spec: GenSpec, k: u64 },
+    /// build_message of an MSM message with a full nsat x nsig cell matrix (cell mask of exactly
+    /// nsat*nsig bits); header fields come from the decoded generated message of `spec`
+    BuildMsm { spec: GenSpec, nsat: u8, nsig: u8 },
     /// build_generated_message on the same builder (judged under clause C12.g: same
     /// generator state => same frame as a fresh builder)
     Generated { spec: GenSpec },
@@ -40,6 +44,10 @@ pub struct BuilderTrace {
     pub run: u64,
     pub origin: String,
     pub ops: Vec<Op>,
+    /// also compare the LAST op's result with a fresh builder in a pristine child process (state
+    /// that the code under test keeps process-wide is shared by every builder of this process)
+    #[serde(default, skip_serializing_if = "std::ops::Not::not")]
+    pub pristine_reference: bool,
 }
 
 impl BuilderTrace {
@@ -60,6 +68,7 @@ pub fn op_brief(op: &Op) -> String {
         Op::Refused { spec, how } => format!("refused({},{})", spec.msg, how),
         Op::NoWire { which, n } => format!("nowire({},{})", which, n),
         Op::Injected { spec, k } => format!("build({})!put#{}", spec.msg, k),
+        Op::BuildMsm { spec, nsat, nsig } => format!("build_msm({},{}x{})", spec.msg, nsat, nsig),
         Op::Generated { spec } => format!("generated({})", spec.msg),
         Op::GeneratedInjected { spec, k } => format!("generated({})!put#{}", spec.msg, k),
     }
@@ -222,6 +231,91 @@ pub fn toggle_ops(base: &GenSpec, j: u32, swapped: bool) -> Vec<Op> {
     }
 }
 
+/// MSM message `spec.msg` with satellites 1..=nsat and, for each, cells for the same nsig signals:
+/// a full matrix, so the cell mask is exactly nsat*nsig bits wide. Header fields and element
+/// prototypes come from the decoded generated message of `spec`.
+pub fn msm_shape(spec: &GenSpec, nsat: u8, nsig: u8) -> Option<Message> {
+    if nsat == 0 || nsig == 0 || (nsat as usize) * (nsig as usize) > 64 {
+        return None;
+    }
+    let mut template: Option<Message> = None;
+    for k in 0..32u64 {
+        let mut sp = spec.clone();
+        sp.gen_seed = spec.gen_seed.wrapping_add(k.wrapping_mul(0x9E37_79B9));
+        sp.force.clear();
+        if let Some(m) = materialise(&sp) {
+            let mut usable = false;
+            for_msm!(&m, t => {
+                usable = t.data_segment.signal_data.len() > 0 && t.data_segment.satellite_data.len() > 0;
+            }, { return None; });
+            if usable {
+                template = Some(m);
+                break;
+            }
+        }
+    }
+    let mut m = template?;
+    macro_rules! shape {
+        ($t:ident, $sig:ty) => {{
+            let mut sigs: Vec<$sig> = Vec::new();
+            'outer: for band in 1u8..=9 {
+                for attr in 'A'..='Z' {
+                    let sid = <$sig>::new(band, attr);
+                    if sid.is_valid() {
+                        sigs.push(sid);
+                        if sigs.len() >= nsig as usize {
+                            break 'outer;
+                        }
+                    }
+                }
+            }
+            if sigs.len() < nsig as usize {
+                return None;
+            }
+            let sat_proto = $t.data_segment.satellite_data[0].clone();
+            let cell_proto = $t.data_segment.signal_data[0].clone();
+            $t.data_segment.satellite_data.clear();
+            $t.data_segment.signal_data.clear();
+            for sid in 1..=nsat {
+                let mut s = sat_proto.clone();
+                s.satellite_id = sid;
+                $t.data_segment.satellite_data.push(s);
+                for g in 0..nsig as usize {
+                    let mut c = cell_proto.clone();
+                    c.satellite_id = sid;
+                    c.signal_id = sigs[g];
+                    $t.data_segment.signal_data.push(c);
+                }
+            }
+        }};
+    }
+    match &mut m {
+        Message::Msg1071(t) => shape!(t, GpsSigId), Message::Msg1072(t) => shape!(t, GpsSigId), Message::Msg1073(t) => shape!(t, GpsSigId),
+        Message::Msg1074(t) => shape!(t, GpsSigId), Message::Msg1075(t) => shape!(t, GpsSigId), Message::Msg1076(t) => shape!(t, GpsSigId),
+        Message::Msg1077(t) => shape!(t, GpsSigId),
+        Message::Msg1081(t) => shape!(t, GloSigId), Message::Msg1082(t) => shape!(t, GloSigId), Message::Msg1083(t) => shape!(t, GloSigId),
+        Message::Msg1084(t) => shape!(t, GloSigId), Message::Msg1085(t) => shape!(t, GloSigId), Message::Msg1086(t) => shape!(t, GloSigId),
+        Message::Msg1087(t) => shape!(t, GloSigId),
+        Message::Msg1091(t) => shape!(t, GalSigId), Message::Msg1092(t) => shape!(t, GalSigId), Message::Msg1093(t) => shape!(t, GalSigId),
+        Message::Msg1094(t) => shape!(t, GalSigId), Message::Msg1095(t) => shape!(t, GalSigId), Message::Msg1096(t) => shape!(t, GalSigId),
+        Message::Msg1097(t) => shape!(t, GalSigId),
+        Message::Msg1101(t) => shape!(t, SbasSigId), Message::Msg1102(t) => shape!(t, SbasSigId), Message::Msg1103(t) => shape!(t, SbasSigId),
+        Message::Msg1104(t) => shape!(t, SbasSigId), Message::Msg1105(t) => shape!(t, SbasSigId), Message::Msg1106(t) => shape!(t, SbasSigId),
+        Message::Msg1107(t) => shape!(t, SbasSigId),
+        Message::Msg1111(t) => shape!(t, QzssSigId), Message::Msg1112(t) => shape!(t, QzssSigId), Message::Msg1113(t) => shape!(t, QzssSigId),
+        Message::Msg1114(t) => shape!(t, QzssSigId), Message::Msg1115(t) => shape!(t, QzssSigId), Message::Msg1116(t) => shape!(t, QzssSigId),
+        Message::Msg1117(t) => shape!(t, QzssSigId),
+        Message::Msg1121(t) => shape!(t, BdsSigId), Message::Msg1122(t) => shape!(t, BdsSigId), Message::Msg1123(t) => shape!(t, BdsSigId),
+        Message::Msg1124(t) => shape!(t, BdsSigId), Message::Msg1125(t) => shape!(t, BdsSigId), Message::Msg1126(t) => shape!(t, BdsSigId),
+        Message::Msg1127(t) => shape!(t, BdsSigId),
+        Message::Msg1131(t) => shape!(t, NavicSigId), Message::Msg1132(t) => shape!(t, NavicSigId), Message::Msg1133(t) => shape!(t, NavicSigId),
+        Message::Msg1134(t) => shape!(t, NavicSigId), Message::Msg1135(t) => shape!(t, NavicSigId), Message::Msg1136(t) => shape!(t, NavicSigId),
+        Message::Msg1137(t) => shape!(t, NavicSigId),
+        _ => return None,
+    }
+    Some(m)
+}
+
 pub fn refusal_kinds_for(n: u16) -> &'static [&'static str] {
     if is_msm(n) {
         &["msm_sat0", "msm_mismatch", "msm_dup_cell"]
@@ -300,6 +394,7 @@ pub fn op_message(op: &Op) -> Option<Message> {
     match op {
         Op::Build { spec } | Op::Injected { spec, .. } => materialise(spec),
         Op::Refused { spec, how } => materialise(spec).and_then(|m| mutate(m, how)),
+        Op::BuildMsm { spec, nsat, nsig } => msm_shape(spec, *nsat, *nsig),
         Op::NoWire { which, n } => Some(match which.as_str() {
             "empty" => Message::Empty,
             "corrupt" => Message::Corrupt,
@@ -318,7 +413,7 @@ pub fn count_puts(m: &Message) -> u64 {
 
 pub fn run_op(b: &mut MessageBuilder, op: &Op, msg: &Option<Message>) -> (Outcome, u64) {
     match op {
-        Op::Build { .. } | Op::Refused { .. } | Op::NoWire { .. } => match msg {
+        Op::Build { .. } | Op::Refused { .. } | Op::NoWire { .. } | Op::BuildMsm { .. } => match msg {
             Some(m) => guarded_build(b, m, 0),
             None => (Outcome::Skip, 0),
         },
@@ -328,6 +423,58 @@ pub fn run_op(b: &mut MessageBuilder, op: &Op, msg: &Option<Message>) -> (Outcom
         },
         Op::Generated { spec } => guarded_generate(b, spec, 0),
         Op::GeneratedInjected { spec, k } => guarded_generate(b, spec, *k),
+    }
+}
+
+/// child side of the pristine-process reference: run ONE op on a fresh builder, print the outcome
+pub fn fresh_op_child(json: &str) -> i32 {
+    let op: Op = match serde_json::from_str(json) {
+        Ok(o) => o,
+        Err(e) => {
+            println!("bad {}", e);
+            return 2;
+        }
+    };
+    let msg = op_message(&op);
+    let mut b = MessageBuilder::new();
+    let (o, _) = run_op(&mut b, &op, &msg);
+    match o {
+        Outcome::Frame(f) => println!("frame {}", hex(&f)),
+        Outcome::Error(e) => println!("error {}", e),
+        Outcome::Panic(e) => println!("panic {}", e.replace('\n', " ")),
+        Outcome::Skip => println!("skip"),
+    }
+    0
+}
+
+/// parent side: None when the child cannot be spawned or answers nonsense (then no verdict)
+pub fn pristine_outcome(op: &Op) -> Option<Outcome> {
+    let json = serde_json::to_string(op).ok()?;
+    let exe = std::env::current_exe().ok()?;
+    let out = std::process::Command::new(exe).args(["fresh-op", &json]).output().ok()?;
+    if !out.status.success() {
+        return None;
+    }
+    let text = String::from_utf8_lossy(&out.stdout);
+    let line = text.lines().next()?.trim().to_string();
+    if let Some(h) = line.strip_prefix("frame ") {
+        let h = h.trim();
+        if h.len() % 2 != 0 {
+            return None;
+        }
+        let mut v = Vec::with_capacity(h.len() / 2);
+        for i in 0..h.len() / 2 {
+            v.push(u8::from_str_radix(&h[2 * i..2 * i + 2], 16).ok()?);
+        }
+        Some(Outcome::Frame(v))
+    } else if let Some(e) = line.strip_prefix("error ") {
+        Some(Outcome::Error(e.to_string()))
+    } else if let Some(e) = line.strip_prefix("panic ") {
+        Some(Outcome::Panic(e.to_string()))
+    } else if line == "skip" {
+        Some(Outcome::Skip)
+    } else {
+        None
     }
 }
 
@@ -377,9 +524,13 @@ pub fn judge_builder(trace: &BuilderTrace, mut stats: Option<&mut Stats>) -> Opt
         let (w, _) = run_op(&mut fresh, op, &msg);
         want_pre[i] = Some(w);
     }
+    let mut last_got: Option<(usize, Outcome)> = None;
     for (i, op) in trace.ops.iter().enumerate() {
         let msg = op_message(op);
         let (got, puts) = run_op(&mut long, op, &msg);
+        if got != Outcome::Skip {
+            last_got = Some((i, got.clone()));
+        }
         if let Some(Some(w)) = want_pre.get(i) {
             evals += 1;
             let same = match (&got, w) {
@@ -584,6 +735,46 @@ pub fn judge_builder(trace: &BuilderTrace, mut stats: Option<&mut Stats>) -> Opt
         };
         last_class = outcome_class;
         has_run = true;
+    }
+    // pristine-process reference for the last operation: a fresh builder in a fresh PROCESS.
+    // State the code under test keeps process-wide (lazily filled tables, "first time only"
+    // latches) is shared by every builder of this process, fresh ones included.
+    if trace.pristine_reference {
+        if let Some((i, got)) = &last_got {
+            let op = &trace.ops[*i];
+            if let Some(want) = pristine_outcome(op) {
+                evals += 1;
+                let same = match (got, &want) {
+                    (Outcome::Panic(_), Outcome::Panic(_)) => true,
+                    (a, b) => a == b,
+                };
+                if let Some(st) = stats.as_deref_mut() {
+                    st.probe("c12_pristine_process_reference");
+                }
+                if !same && want != Outcome::Skip {
+                    let show = |o: &Outcome| match o {
+                        Outcome::Frame(f) => format!("frame [{}..] ({} bytes)", hex(&f[..f.len().min(16)]), f.len()),
+                        Outcome::Error(e) | Outcome::Panic(e) => e.clone(),
+                        Outcome::Skip => "skip".into(),
+                    };
+                    return Some(Violation::new(
+                        "C12",
+                        if is_generated(op) { "C12.g" } else if matches!((got, &want), (Outcome::Frame(_), Outcome::Frame(_))) { "C12.a" } else { "C12.b" },
+                        format!(
+                            "op #{} {}: after this history the builder gives {}, a fresh builder in a pristine process gives {}{}",
+                            i,
+                            op_brief(op),
+                            show(got),
+                            show(&want),
+                            match (got, &want) {
+                                (Outcome::Frame(a), Outcome::Frame(b)) => format!(" ({})", first_diff(a, b)),
+                                _ => String::new(),
+                            }
+                        ),
+                    ));
+                }
+            }
+        }
     }
     if let Some(st) = stats {
         st.oracle_evals += evals;
@@ -793,7 +984,7 @@ pub fn gen_builder_trace(master: u64, run: u64) -> BuilderTrace {
             ops.push(Op::Build { spec: s });
         }
     }
-    BuilderTrace { property: "C12".into(), seed: master, run, origin: "random".into(), ops }
+    BuilderTrace { property: "C12".into(), seed: master, run, origin: "random".into(), ops, pristine_reference: root.fork("pristine").chance(0.003) }
 }
 
 /// fixed corner scenarios (seed-independent)
@@ -803,7 +994,8 @@ pub fn directed_builder(thorough: bool) -> Vec<BuilderTrace> {
     let spec = |msg: u16, seed: u64, pl: f64| GenSpec { msg, gen_seed: seed, p_len_max: pl, p_field_max: 0.0, force: Vec::new() };
     let mut idx = 0u64;
     let mut add = |name: &str, ops: Vec<Op>, out: &mut Vec<BuilderTrace>| {
-        out.push(BuilderTrace { property: "C12".into(), seed: 0, run: idx, origin: format!("directed:{}", name), ops });
+        let pristine = !name.starts_with("one_field") && !name.starts_with("two_fields") && !(name.starts_with("exactly_n") && ops.len() > 300);
+        out.push(BuilderTrace { property: "C12".into(), seed: 0, run: idx, origin: format!("directed:{}", name), ops, pristine_reference: pristine });
         idx += 1;
     };
     let longs: Vec<u16> = LONG_TYPES.iter().copied().filter(|n| all.contains(n)).collect();
@@ -894,6 +1086,31 @@ pub fn directed_builder(thorough: bool) -> Vec<BuilderTrace> {
             add("one_field_zeros_vs_ones", toggle_ops(&base, j, false), &mut out);
             if j % 4 == 1 {
                 add("two_fields_swapped", toggle_ops(&base, j, true), &mut out);
+            }
+        }
+    }
+    // MSM messages with a full nsat x nsig cell matrix for every shape whose cell mask is 1..=64 bits
+    // wide, after an MSM7 history (the cell mask is the crate's only field of variable width)
+    {
+        let msm_targets: Vec<u16> = [1071u16, 1074, 1077, 1084, 1127].iter().copied().filter(|n| all.contains(n)).collect();
+        let hist = longs.iter().copied().find(|n| is_msm(*n)).unwrap_or(all[0]);
+        for (ti, n) in msm_targets.iter().copied().enumerate() {
+            for nsat in 1..=64u8 {
+                for nsig in 1..=16u8 {
+                    let cells = nsat as usize * nsig as usize;
+                    if cells > 64 {
+                        continue;
+                    }
+                    // all shapes for the first target, a diagonal selection for the others (every width once)
+                    if ti > 0 && !(nsig == 1 || nsat == 1 || cells % 11 == 0 || cells == 64) {
+                        continue;
+                    }
+                    add(
+                        "msm_shape_after_msm7",
+                        vec![Op::Build { spec: spec(hist, 1500, 0.3) }, Op::BuildMsm { spec: spec(n, 1501 + ti as u64, 0.0), nsat, nsig }],
+                        &mut out,
+                    );
+                }
             }
         }
     }
